@@ -39,6 +39,7 @@ func checkC01(ctx *Ctx, r *Report) {
 	c01StrictEmptyList(ctx, r)
 	c01CueDefaultBranch(ctx, r)
 	c01OpenAPIWidestDefault(ctx, r)
+	c01GoByteSliceTrap(ctx, r)
 	c01LoopLocalResult(ctx, r)
 }
 
@@ -1890,4 +1891,34 @@ func c01OpenAPIWidestDefault(ctx *Ctx, r *Report) {
 	}
 	r.Count("format switches of the OpenAPI number walkers", n)
 	r.Floor("format switches of the OpenAPI number walkers", 2)
+}
+
+// c01GoByteSliceTrap: encoding/json writes any slice whose element kind is uint8 as a base64 *string*. A schema list of
+// 8-bit unsigned integers (`[...uint8]`) is declared `[]uint8` by the Go jenny: the document `[1,2,3]` decodes, and is
+// re-encoded as "AQID" — not JSON-equal, and not accepted by the source schema. The array formatter must treat the uint8
+// element kind specially (widen it, or emit a marshaller); it does not.
+func c01GoByteSliceTrap(ctx *Ctx, r *Report) {
+	fn := ctx.LookupMethod("internal/jennies/golang", "typeFormatter", "formatArray")
+	fd, _ := ctx.DeclOf(fn)
+	if fd == nil {
+		r.Undecided("anchor lost: golang.typeFormatter.formatArray")
+		return
+	}
+	special := false
+	ast.Inspect(fd.Body, func(m ast.Node) bool {
+		switch x := m.(type) {
+		case *ast.SelectorExpr:
+			if x.Sel.Name == "KindUint8" || x.Sel.Name == "KindBytes" {
+				special = true
+			}
+		case *ast.BasicLit:
+			if strings.Contains(x.Value, "uint8") || strings.Contains(x.Value, "byte") {
+				special = true
+			}
+		}
+		return true
+	})
+	r.Count("array formatters of the Go jenny", 1)
+	r.Check(special, "kinds/go-byte-slice-trap", "golang.typeFormatter.formatArray element kind uint8", fd.Pos(), "lists of uint8 are not declared as a byte slice",
+		"formatArray declares a list of uint8 as `[]uint8`: encoding/json encodes every slice of uint8 as a base64 string — {\"levels\":[1,2,3]} is re-encoded as {\"levels\":\"AQID\"}")
 }
